@@ -254,7 +254,7 @@ mod proofs {
   /// Shape-enumerated variants: all 9 pre-order shapes of <= 4 nodes and every start node
   /// by concrete loops; verdict vector, kind labels, advertised kind set and match lengths
   /// symbolic.  (With a symbolic *shape* the same drivers need > 15 min each.)
-  fn shapes_driver(which: u8) {
+  fn shapes_driver(which: u8, only_shape: Option<usize>) {
     let mut bits = [false; MAXN];
     let mut kinds = [1u16; MAXN];
     let mut trim = [None; MAXN];
@@ -277,6 +277,12 @@ mod proofs {
     let (pv, ns, cnt) = all_shapes(4);
     let mut sidx = 0;
     while sidx < cnt {
+      if let Some(os) = only_shape {
+        if os != sidx {
+          sidx += 1;
+          continue;
+        }
+      }
       let n = ns[sidx];
       let parent = pv[sidx];
       let mut d = TreeData::from_parents(n, &parent);
@@ -391,21 +397,38 @@ mod proofs {
     kani::cover!(!bits[0] && bits[2]);
   }
 
-  #[kani::proof]
-  #[kani::unwind(10)]
-  fn c01_find_all_exact_shapes4() {
-    shapes_driver(0);
+  /// one harness per (driver, shape): shapes 0..8 in the order of `all_shapes(4)`
+  /// (0: 1 node; 1: 2 nodes; 2,3: 3 nodes; 4..8: 4 nodes)
+  macro_rules! shape_harness {
+    ($name:ident, $which:expr, $shape:expr) => {
+      #[kani::proof]
+      #[kani::unwind(10)]
+      fn $name() {
+        shapes_driver($which, Some($shape));
+      }
+    };
   }
-  #[kani::proof]
-  #[kani::unwind(10)]
-  fn c01_outermost_pre_shapes4() {
-    shapes_driver(1);
-  }
-  #[kani::proof]
-  #[kani::unwind(10)]
-  fn c06_replace_all_disjoint_shapes4() {
-    shapes_driver(2);
-  }
+  shape_harness!(c01_find_all_shape2, 0, 2);
+  shape_harness!(c01_find_all_shape3, 0, 3);
+  shape_harness!(c01_find_all_shape4, 0, 4);
+  shape_harness!(c01_find_all_shape5, 0, 5);
+  shape_harness!(c01_find_all_shape6, 0, 6);
+  shape_harness!(c01_find_all_shape7, 0, 7);
+  shape_harness!(c01_find_all_shape8, 0, 8);
+  shape_harness!(c01_outermost_shape2, 1, 2);
+  shape_harness!(c01_outermost_shape3, 1, 3);
+  shape_harness!(c01_outermost_shape4, 1, 4);
+  shape_harness!(c01_outermost_shape5, 1, 5);
+  shape_harness!(c01_outermost_shape6, 1, 6);
+  shape_harness!(c01_outermost_shape7, 1, 7);
+  shape_harness!(c01_outermost_shape8, 1, 8);
+  shape_harness!(c06_replace_all_shape2, 2, 2);
+  shape_harness!(c06_replace_all_shape3, 2, 3);
+  shape_harness!(c06_replace_all_shape4, 2, 4);
+  shape_harness!(c06_replace_all_shape5, 2, 5);
+  shape_harness!(c06_replace_all_shape6, 2, 6);
+  shape_harness!(c06_replace_all_shape7, 2, 7);
+  shape_harness!(c06_replace_all_shape8, 2, 8);
 
   #[kani::proof]
   #[kani::unwind(10)]
